@@ -19,7 +19,10 @@ THEOREMS = [
     "BeyondVerif.C15.setFrame_unknown_atomic",
     "BeyondVerif.C15.setFrameBasic_error_atomic",
     "BeyondVerif.C15.setFrameBasic_error_keeps_labels",
-    "BeyondVerif.C15.setFrame_error_atomic_partial",
+    "BeyondVerif.C15.restore_after_basic",
+    "BeyondVerif.C15.setFrame_error_atomic",
+    "BeyondVerif.C15.setFrame_error_frame",
+    "BeyondVerif.C15.stdDeepcopy_separate",
     "BeyondVerif.C15.covSetFrame_error_atomic",
     "BeyondVerif.C15.setFrame_error_cases",
     "BeyondVerif.C15.copy_receiver_unchanged",
@@ -36,6 +39,10 @@ THEOREMS = [
     "BeyondVerif.C15.mut_sep",
     "BeyondVerif.C15.muts_sep",
     "BeyondVerif.C15.copy_then_mutations_invisible",
+    "BeyondVerif.C15.mut_out",
+    "BeyondVerif.C15.muts_out",
+    "BeyondVerif.C15.copy_region_out",
+    "BeyondVerif.C15.original_mutations_invisible",
     "BeyondVerif.C15.asSV_then_mutations_invisible",
     "BeyondVerif.C15.pickle_then_mutations_invisible",
     "BeyondVerif.C15.ctor_separate",
@@ -57,8 +64,9 @@ THEOREMS = [
     "BeyondVerif.C15W.copy_shares_maneuver_objects",
     "BeyondVerif.C15W.as_orbit_cov_separate",
     "BeyondVerif.C15W.pickle_gives_working_object",
-    "BeyondVerif.C15W.deepcopy_shares_data",
+    "BeyondVerif.C15W.deepcopy_shares_nothing",
     "BeyondVerif.C15W.frame_change_fails_after_state_moved",
+    "BeyondVerif.C15W.frame_change_moves_state_and_covariance",
     "BeyondVerif.C15W.cov_from_cov_has_own_buffer",
     "BeyondVerif.C15W.lazily_created_maneuver_list_not_shared",
     "BeyondVerif.C15W.failed_frame_change_from_keplerian",
@@ -68,16 +76,18 @@ LEVEL_TEXT = ("Lean theorems over an object-graph (heap) model of StateVector/Or
               "well-formed heap a cell reachable both from a copy and from its original is a maneuver object and nothing else, at any depth (copy_shares_only_maneuver_objects), also after copy(form/frame) whether it succeeds or fails "
               "(copyForm_separate, copyFrame_separate); over HISTORIES: after a copy / as_statevector / unpickling, any sequence of in-place operations on the new object — form, frame (incl. transformations the environment makes "
               "fail), element by name/index, metadata keys, metadata containers empty or not and nested, the maneuver list incl. the one the getter creates on a mere read, covariance frame — each succeeding or raising, leaves every "
-              "pre-existing cell bit-identical (copy_then_mutations_invisible, by induction over the sequence); a covariance built from a list, an ndarray or another covariance gets a new buffer cell and only the owner's own dict is "
+              "pre-existing cell bit-identical (copy_then_mutations_invisible, by induction over the sequence), and any such sequence on the original (or any other object) leaves every cell the copy consists of bit-identical "
+              "(original_mutations_invisible); a covariance built from a list, an ndarray or another covariance gets a new buffer cell and only the owner's own dict is "
               "rewritten (attachCov_result, covFrom_frame); the maneuver getter creates a new list per object (getMans_creates_new); every failing form change and every failing covariance frame change leaves the heap identical, a "
-              "failing frame transformation (Hill, unreachable centre, missing EOP data) from ANY form rewrites only the coordinate buffer with the round trip form->cartesian->form of its content and keeps form, frame and _data "
-              "(setFrameBasic_error_atomic, setFrameBasic_error_keeps_labels); StateVector->Orbit->StateVector gives back the coordinates, form, frame and every immutable _data entry; name/alias/index resolution decided over the tables "
+              "failing frame assignment — unknown name, Hill, unreachable centre, missing EOP data, the covariance that has to follow cannot be converted — from ANY form leaves form, frame, _data and every cell but the coordinate buffer "
+              "bit-identical and the buffer untouched or the round trip form->cartesian->form of its content (setFrame_error_atomic, setFrame_error_frame, in full since /repo 45ca5d0); copy.deepcopy writes no old cell and stores only new "
+              "addresses (stdDeepcopy_separate); StateVector->Orbit->StateVector gives back the coordinates, form, frame and every immutable _data entry; name/alias/index resolution decided over the tables "
               "regenerated from beyond.orbits.forms on every run. The model agrees exactly (object-identity partition incl. memory owners of all buffers and cloned Frame objects, labels, error kinds, bit-identical buffers) with the "
               "real classes on random operation sequences.")
-LEVEL_NOTE = ("shared maneuver objects (kept on purpose by the library), copy.deepcopy falling through to ndarray's protocol and the frame setter leaving the state moved when its covariance cannot follow are open findings; the maneuver objects are the one exception in the separation theorems; that the "
-              "content of copied containers equals the original's, and the pickle round trip as an isomorphism, are compared exactly by the correspondence but not proved; the history theorem covers in-place operations on the NEW "
-              "object (the other direction, and setCov / Cov-from-Cov inside a history, are compared by the correspondence and judged by the history oracle only); a covariance failure after a successful state-vector frame change "
-              "is reachable and is an open finding (frame setter not atomic when the covariance that follows cannot be converted; the atomicity theorem for the whole setter is _partial); heap model hand-written, tied by the correspondence run; Lean kernel + propext/Classical.choice/Quot.sound")
+LEVEL_NOTE = ("shared maneuver objects (kept on purpose by the library) are the open finding; the maneuver objects are the one exception in the separation theorems; that the "
+              "content of copied containers equals the original's, and the pickle round trip as an isomorphism, are compared exactly by the correspondence but not proved; the history theorems cover in-place operations on the new object and, "
+              "the other way round, on the original (setCov / Cov-from-Cov / copies of copies inside a history are compared by the correspondence and judged by the history oracle only); that the result of copy.deepcopy reaches no OLD maneuver object is proved "
+              "up to the intermediate maneuver lists of copy() (stdDeepcopy_separate) and kernel-checked on a witness heap (deepcopy_shares_nothing), not for every heap; heap model hand-written, tied by the correspondence run; Lean kernel + propext/Classical.choice/Quot.sound")
 TECHNIQUE = "Lean 4 proof over an object-graph (heap) model + kernel decide on regenerated name/alias tables; exact model/implementation correspondence"
 TRUSTED = [
     "harness/props/C15.py extract: Form.param_names, Form.alt, forms._cache, _cache_param_names, the frame registry and the property names of the classes, read from live objects (cross-checked against the Form(...) literals in forms.py) -> Generated/FormTables.lean",
@@ -99,7 +109,7 @@ ASSUMPTIONS = [
 ]
 NOT_COVERED = [
     "maneuver objects stay shared between a copy and its original (open findings C15-*-man-object, kept on purpose by the library): the clause 'changing maneuvers of one never shows in the other' holds for the maneuver list, not for the objects in it",
-    "copy.deepcopy(sv) / copy.copy(sv) / np.copy: ndarray's own protocol, shallow in _data (open finding C15-deepcopy-shares-data for deepcopy; modelled as stdDeepcopy and compared by the correspondence)",
+    "copy.copy(sv) / np.copy(sv): ndarray's own protocol, shallow in _data by contract (copy.deepcopy is StateVector.__deepcopy__ since /repo fd4f2bf: modelled as stdDeepcopy, compared by the correspondence, judged by the oracle)",
     "numpy views (sv[:], sv.view()) share the buffer with their parent by numpy's own semantics and are outside the model; setting the form of such a view rewrites the parent's values but not its form label (observed, not filed: a view is not a copy)",
     "after a pickle round trip the Frame objects are clones, so `p.frame = <same name>` runs a (numerically identity) transformation through cartesian instead of doing nothing: modelled and compared, not judged",
     "the stale `infos` entry of _data (Infos object of the receiver, handed over by copy() as it is and re-created by the getter on every access): cache object of C01 / C08, excluded from the object graphs",
@@ -109,10 +119,10 @@ NOT_COVERED = [
 ]
 OPEN = [
     "content equality of copies: that a copied / unpickled container holds the same values as the original (an isomorphism of object graphs) is compared exactly by the correspondence, proved only for immutable entries (as_orbit_as_statevector_id) and values (copy_separate_depth1, attachCov_result)",
-    "setFrame_error_cases third case (covariance part fails after the state vector was changed; the covariance is then untouched, covSetFrame_error_atomic) IS reachable: open finding C15-frame-change-not-atomic-with-cov "
-    "(counter-witness frame_change_fails_after_state_moved; the atomicity theorem is setFrame_error_atomic_partial: states whose covariance does not have to follow)",
+    "copy.deepcopy: stdDeepcopy_separate leaves maneuver objects as the possible exception (the lists copy() made on the way, which the result no longer refers to, still hold the old objects); that no old maneuver object is REACHABLE "
+    "from the result needs 'an address returned by a copy step is referred to by nothing else' (freshness / no dangling address in intermediate heaps = WfM preservation), kernel-checked on the witness heap only",
     "WfM is not proved to be preserved by the operations (it is a hypothesis of copy_separate / asOrbit_separate / asSV_separate); hence histories that copy a copy, or attach a covariance to the copy (setCov / covFrom run copy() inside), are outside copy_then_mutations_invisible",
-    "the mirror direction of copy_then_mutations_invisible (in-place operations on the ORIGINAL never reach a cell of the copy) needs the separation invariant phrased for an arbitrary region instead of 'addresses below the old length'; single-step facts: copy_shares_only_maneuver_objects + the *_frame theorems",
+    "both directions of the history theorem (copy_then_mutations_invisible, original_mutations_invisible) cover the eleven in-place operations of `Mut`; operations that copy inside (cov= from values or from another covariance, copies of copies) within a history are compared by the correspondence and judged by the history oracle only",
     "copyFrame_receiver_unchanged now carries the hypothesis WfM h (the covariance that follows the frame change writes its buffer cell, which is new because the copy is separated)",
 ]
 RULE = ("correspondence: (a) exhaustive name resolution: every form x every reserved name, alias and two free keys; (b) random sequences of 1-2 constructions (form, frame incl. Hill, Orbit or StateVector, metadata absent / non-empty and nested / "
@@ -1097,7 +1107,7 @@ def check_deepcopy(out, rng, spec):
 
 # ---------------------------------------------------------------- oracle: histories
 
-NEW_OBJECT_OPS = {"new", "copy", "copyf", "copyfr", "aso", "assv", "pickle", "ctor"}
+NEW_OBJECT_OPS = {"new", "copy", "copyf", "copyfr", "aso", "assv", "pickle", "ctor", "dcopy"}
 TRANSFORM_OPS = {"setfr", "setfrx"}
 
 
@@ -1670,9 +1680,8 @@ OP_WEIGHTS = [("copy", 12), ("copyf", 9), ("copyfr", 10), ("aso", 7), ("assv", 5
               ("covfr", 5), ("readman", 5), ("addman", 5), ("lappend", 4), ("dset", 3), ("nappend", 3), ("aset", 2), ("setcov", 3), ("covfrom", 5), ("pickle", 5)]
 
 
-def rand_ops(rng, maxlen=6, dcopy=False):
-    """dcopy: also draw `copy.deepcopy(sv)` (correspondence only: its result shares data with the receiver — open finding —, so the
-    history oracle, which judges every step by the statement, is not fed with it)"""
+def rand_ops(rng, maxlen=6, dcopy=True):
+    """dcopy: also draw `copy.deepcopy(sv)` (since /repo fd4f2bf a full copy: judged by the history oracle like every other one)"""
     ops = []
     nvars = 0
     nnew = rng.choice([1, 1, 2])
